@@ -524,3 +524,43 @@ func VerifC18_Keys(which int) {
 	}
 	verifReach("done")
 }
+
+// c18Derive runs derivation `which` with a symbolic key (and address) and returns (library result, spec result).
+func c18Derive(which int, pfx string) (lorawan.AES128Key, [16]byte, error) {
+	key := lorawan.AES128Key(verifNondetKey(pfx + "key"))
+	var block [16]byte
+	var got lorawan.AES128Key
+	var err error
+	switch which {
+	case 0:
+		got, err = GetMcRootKeyForGenAppKey(key)
+	case 1:
+		got, err = GetMcRootKeyForAppKey(key)
+		block[0] = 0x20
+	case 2:
+		got, err = GetMcKEKey(key)
+	default:
+		addr := c18DevAddr(pfx + "mcAddr")
+		if which == 3 {
+			got, err = GetMcAppSKey(key, addr)
+			block[0] = 0x01
+		} else {
+			got, err = GetMcNetSKey(key, addr)
+			block[0] = 0x02
+		}
+		block[1], block[2], block[3], block[4] = addr[3], addr[2], addr[1], addr[0]
+	}
+	return got, verifAESEnc(key[:], block), err
+}
+
+// KeysTwice: two derivations in sequence with independent symbolic keys - the second result must not depend
+// on the first call (no hidden state between derivations).
+func VerifC18_KeysTwice(w1, w2 int) {
+	g1, s1, e1 := c18Derive(w1, "first.")
+	g2, s2, e2 := c18Derive(w2, "second.")
+	verifAssert(e1 == nil, "first key derivation succeeds")
+	verifAssert(e2 == nil, "second key derivation succeeds")
+	verifAssert(verifBytesEq(g1[:], s1[:]), "first derived key == TS005 AES derivation")
+	verifAssert(verifBytesEq(g2[:], s2[:]), "a key derived after another derivation == TS005 AES derivation (independent of the earlier call)")
+	verifReach("done")
+}
